@@ -413,12 +413,18 @@ fn real_login_inner(i: &LoginInput) -> Result<(RealLogin, SrpServer, wow_srp::cl
     } else {
         verifier
     };
+    // on the storage-round-trip path every intermediate object is also replaced by its clone before the next step
+    // (typestate objects are kept in per-connection maps and cloned out of them): a copy is the same object
+    let via_clones = i.storage_roundtrip;
+    let verifier = if via_clones { verifier.clone() } else { verifier };
     let proof = catch(move || verifier.into_proof()).map_err(|m| LoginFail::Panic("into_proof", m))?;
+    let proof = if via_clones { proof.clone() } else { proof };
     let b_pub = *proof.server_public_key();
     let salt_sent = *proof.salt();
     let bk = PublicKey::from_le_bytes(b_pub).map_err(|e| LoginFail::Refused("client-parses-B", e.to_string()))?;
     let client = catch(move || SrpClientChallenge::new(tu, tp, GENERATOR, LARGE_SAFE_PRIME_LITTLE_ENDIAN, bk, salt_sent))
         .map_err(|m| LoginFail::Panic("client-new", m))?;
+    let client = if via_clones { client.clone() } else { client };
     let a_pub = *client.client_public_key();
     let m1 = *client.client_proof();
     let ak = PublicKey::from_le_bytes(a_pub).map_err(|e| LoginFail::Refused("server-parses-A", e.to_string()))?;
